@@ -27,7 +27,7 @@ pub fn gen_pair(rng: &mut Rng) -> Pair {
     let lo = MIN_INSTANT + 2 * D;
     let hi = MAX_INSTANT - 2 * D;
     let sign: i128 = if rng.chance(1, 2) { 1 } else { -1 };
-    let delta: i128 = match rng.below(10) {
+    let delta: i128 = match rng.below(12) {
         0 => 0,
         1 => sign,
         2 => sign * rng.range_i128(1, NS - 1),
@@ -45,6 +45,7 @@ pub fn gen_pair(rng: &mut Rng) -> Pair {
         6 => sign * rng.range_i128(1, 400) * D + rng.range_i128(-D + 1, D - 1),
         7 => sign * rng.range_i128(1, 1 << 62),
         8 => sign * rng.range_i128(1, D - 1),
+        9 | 10 => crate::model::magic::gen_delta(rng),
         _ => rng.range_i128(lo, hi) - i,
     };
     let j = (i + delta).clamp(lo, hi);
